@@ -13,11 +13,34 @@ Record sprite_src := { ss_name : nat; ss_id : option expr }.
 (* a script item: its name and its explicit number, `script 7 name { }` *)
 Record script_src := { sc_name : nat; sc_number : option Z }.
 
+(* a use of a name.  Sprite and script names live in one namespace (two enums: AnmSprite, AnmScript):
+     XSprite / XScript : an instruction argument whose signature names the enum (`n` / `N`): the name is looked up in that
+                         enum first, else in the other one ("suspicious use of enum .." warning);
+     XPlain            : a position without an enum (`const int W = name;`, a plain `S` argument): a name that belongs
+                         to both enums is an error ("ambiguous enum const .. belongs to multiple enums") *)
+Inductive use_src := XSprite (n : nat) | XScript (n : nat) | XPlain (n : nat).
+
+Definition E_AMBIG_ENUM : nat := 36.
+
+Definition resolve_use (consts : list (nat * Z)) (names : list nat) (u : use_src) : outcome Z :=
+  let as_sprite n := lookup_const n consts in
+  let as_script n := match index_of n names with Some i => Some (Z.of_nat i) | None => None end in
+  match u with
+  | XSprite n => match as_sprite n, as_script n with Some v, _ => Ok v | None, Some i => Ok i | None, None => Err E_UNDEF end
+  | XScript n => match as_script n, as_sprite n with Some i, _ => Ok i | None, Some v => Ok v | None, None => Err E_UNDEF end
+  | XPlain n => match as_sprite n, as_script n with
+                | Some _, Some _ => Err E_AMBIG_ENUM
+                | Some v, None => Ok v
+                | None, Some i => Ok i
+                | None, None => Err E_UNDEF
+                end
+  end.
+
 Record anm_src := {
   as_consts : list (nat * expr);                (* `const int K = ...;` items, by DefId *)
   as_entries : list (list sprite_src);
   as_scripts : list script_src;                 (* in file order, across entries *)
-  as_uses : list use
+  as_uses : list use_src
 }.
 
 Definition E_NONLIT : nat := 34.    (* the id did not simplify to an integer literal / const of the wrong type *)
@@ -88,10 +111,7 @@ Section S.
     | SeqAdd =>
         do cache <- eval_deferred OT libm (assoc (as_consts inp)) fuel (map fst (as_consts inp)) [];
         do consts <- const_ids_src (as_consts inp) k0 (ELitI base0) k0 decls;
-        do args <- omap (fun u => match u with
-                                  | USprite n => match lookup_const n consts with Some v => Ok v | None => Err E_UNDEF end
-                                  | UScript n => pos_const (it_script_const T) names n
-                                  end) (as_uses inp);
+        do args <- match it_script_const T with PosIndex => omap (resolve_use consts names) (as_uses inp) | PosUnrec => Panic P_UNREC end;
         if negb (consistent consts) then Err E_AMBIG else
         do tbl <- written_ids_src cache (it_writer_wraps T) step next0 decls;
         Ok (tbl, nums, map u32 args)
